@@ -827,6 +827,101 @@ theorem C12_gen_sort_terms (l : List (Nat × Int)) :
     simp only [hc, ne_eq, not_true_eq_false, if_false, hlt]
 
 
+/-! ### Round 8: `QuadTerms::sort_terms` translated and proved equal to `sortQuadTerms` -/
+
+theorem mapAddToP_eq : ∀ (m : List ((Int × Int) × Int)) (k : Int × Int) (c : Int),
+    ObjFilter.mapAddToP m k c = addToP m k c := by
+  intro m
+  induction m with
+  | nil => intro k c; rfl
+  | cons t m ih =>
+    intro k c
+    obtain ⟨w, d⟩ := t
+    simp only [ObjFilter.mapAddToP, addToP, ih]
+    have hp : ObjFilter.pairLt k w = pairLt k w := rfl
+    rw [hp]
+
+theorem mapAddToP_fun : ObjFilter.mapAddToP = addToP := by
+  funext m k c; exact mapAddToP_eq m k c
+
+theorem qloop1 : ∀ (l : List (Int × Int × Int)) (m : List ((Int × Int) × Int)) (c v1 v2 : List Int),
+    (List.zip (l.map (·.1)) (List.zip (l.map (·.2.1)) (l.map (·.2.2)))).foldl
+      (fun (s : ObjFilter.QuadTerms_sort_terms.St) (it : Int × Int × Int) =>
+        let s := if (cne (0 : Int) (ObjFilter.dabs it.1)) ≠ 0 then (let s := { s with var_coef_map := addToP s.var_coef_map ((fun (a b : Int) => (if (clt a b) ≠ 0 then (a, b) else (b, a))) it.2.1 it.2.2) it.1 }; s) else (s); s)
+      ⟨c, v1, v2, m⟩ = ⟨c, v1, v2, accumulateQ m l⟩ := by
+  intro l
+  induction l with
+  | nil => intro m c v1 v2; simp [accumulateQ]
+  | cons t l ih =>
+    intro m c v1 v2
+    obtain ⟨d, a, b⟩ := t
+    simp only [List.map_cons, List.zip_cons_cons, List.foldl_cons, accumulateQ]
+    have hp : (if clt a b ≠ 0 then (a, b) else (b, a)) = sortPair a b := by
+      simp only [clt, sortPair]; by_cases h : a < b <;> simp [h]
+    by_cases hd : d ≠ 0
+    · have h1 : cne (0 : Int) (ObjFilter.dabs d) ≠ 0 := (nz_iff d).mpr hd
+      have e : (if (d, a, b).1 ≠ 0 then addToP m (sortPair (d, a, b).2.1 (d, a, b).2.2) (d, a, b).1 else m) = addToP m (sortPair a b) d := if_pos hd
+      rw [e]
+      simp only [h1, if_true, ne_eq, not_false_eq_true, hp]
+      exact ih (addToP m (sortPair a b) d) c v1 v2
+    · have h1' : cne (0 : Int) (ObjFilter.dabs d) = 0 := by
+        have : ¬ (cne (0 : Int) (ObjFilter.dabs d) ≠ 0) := fun h => hd ((nz_iff d).mp h)
+        simpa using this
+      have e : (if (d, a, b).1 ≠ 0 then addToP m (sortPair (d, a, b).2.1 (d, a, b).2.2) (d, a, b).1 else m) = m := if_neg hd
+      rw [e]
+      simp only [h1', ne_eq, not_true_eq_false, if_false]
+      exact ih m c v1 v2
+
+theorem qloop2 : ∀ (mm : List ((Int × Int) × Int)) (c v1 v2 : List Int) (M : List ((Int × Int) × Int)),
+    mm.foldl
+      (fun (s : ObjFilter.QuadTerms_sort_terms.St) (vc : (Int × Int) × Int) =>
+        let s := if (cne (0 : Int) (ObjFilter.dabs vc.2)) ≠ 0 then (let s := { s with coefs_ := s.coefs_ ++ [vc.2] }; let s := { s with vars1_ := s.vars1_ ++ [vc.1.1] }; let s := { s with vars2_ := s.vars2_ ++ [vc.1.2] }; s) else (s); s)
+      ⟨c, v1, v2, M⟩ =
+      ⟨c ++ (mm.filter (fun t => t.2 ≠ 0)).map (·.2), v1 ++ (mm.filter (fun t => t.2 ≠ 0)).map (·.1.1),
+       v2 ++ (mm.filter (fun t => t.2 ≠ 0)).map (·.1.2), M⟩ := by
+  intro mm
+  induction mm with
+  | nil => intro c v1 v2 M; simp
+  | cons t mm ih =>
+    intro c v1 v2 M
+    obtain ⟨⟨a, b⟩, d⟩ := t
+    simp only [List.foldl_cons, List.filter_cons]
+    by_cases hd : d ≠ 0
+    · have h1 : cne (0 : Int) (ObjFilter.dabs d) ≠ 0 := (nz_iff d).mpr hd
+      simp only [h1, if_true, ne_eq, not_false_eq_true]
+      rw [ih (c ++ [d]) (v1 ++ [a]) (v2 ++ [b]) M]
+      simp [hd]
+    · have h1' : cne (0 : Int) (ObjFilter.dabs d) = 0 := by
+        have : ¬ (cne (0 : Int) (ObjFilter.dabs d) ≠ 0) := fun h => hd ((nz_iff d).mp h)
+        simpa using this
+      have hd0 : d = 0 := by simpa using hd
+      simp only [h1', ne_eq, not_true_eq_false, if_false]
+      rw [ih c v1 v2 M]
+      simp [hd0]
+
+/-- **`QuadTerms::sort_terms` generated from src/std_constr.cc equals the model's `sortQuadTerms`** for every list of
+    `(coefficient, var1, var2)` (exact arithmetic; the three vectors are the columns of the list, i.e. of equal length) -/
+theorem C12_gen_quad_sort_terms (l : List (Int × Int × Int)) :
+    ObjFilter.QuadTerms_sort_terms (l.map (·.1)) (l.map (·.2.1)) (l.map (·.2.2)) =
+      ((sortQuadTerms l).map (·.1), (sortQuadTerms l).map (·.2.1), (sortQuadTerms l).map (·.2.2)) := by
+  have h1 := qloop1 l [] (l.map (·.1)) (l.map (·.2.1)) (l.map (·.2.2))
+  simp only [ObjFilter.QuadTerms_sort_terms, mapAddToP_fun, h1, sortQuadTerms]
+  have h2 := qloop2 (accumulateQ [] l) [] [] [] (accumulateQ [] l)
+  have hone : ((1 : Int) ≠ 0) := by decide
+  simp only [hone, if_true, h2, List.nil_append, List.map_map]
+  simp [Function.comp_def]
+
+/-- what `sortQuadTerms` guarantees outright: no zero coefficient is delivered (the "no unordered pair twice" clause is
+    NOT proved - it is checked per run on every recorded `SetQuadraticObjective` call) -/
+theorem C12_quad_terms_nonzero (l : List (Int × Int × Int)) : ∀ t ∈ sortQuadTerms l, t.1 ≠ 0 := by
+  intro t ht
+  simp only [sortQuadTerms, List.mem_map, List.mem_filter] at ht
+  obtain ⟨u, ⟨_, hu⟩, rfl⟩ := ht
+  simpa using hu
+
+-- instance: x0*x1 + 2*x1*x0 - 3*x2^2 + 0*x0*x0 + 3*x2*x2  ->  3*x0*x1 (the two orientations merged, the cancelled square dropped)
+example : sortQuadTerms [(1, 0, 1), (2, 1, 0), (-3, 2, 2), (0, 0, 0), (3, 2, 2)] = [(3, 0, 1)] := by decide
+
 end GenTie
 
 /-! ## Statement audit (round 4): the error branches and the state invariant behind `List.modify` -/
